@@ -47,7 +47,11 @@ def check_case(case) -> Outcome:
 
     out = Outcome()
     odd = []
-    if case.get("rename"):
+    if case.get("rename") == "x":
+        # a numeric data column that happens to be called like the generated intercept column: two columns share a name
+        case = F.rename_col({k: v for k, v in case.items() if k != "rename"}, "x", "Intercept")
+        out.label("column-named-Intercept")
+    elif case.get("rename"):
         # a categorical column whose (quoted) name contains the interaction operator
         case = F.rename_col({k: v for k, v in case.items() if k != "rename"}, case["rename"], "s:t")
         odd = ["s:t"]
@@ -55,7 +59,10 @@ def check_case(case) -> Outcome:
     fr, fc, efr, output = case["frame"], case["formula"], case["efr"], case["output"]
     df = F.build(fr)
     s = F.formula_string(fc)
-    mm = model_matrix(s, df, ensure_full_rank=efr, output=output)
+    ckw = {"cluster_by": "numerical_factors"} if case.get("cluster") else {}
+    if ckw:
+        out.label("cluster_by")
+    mm = model_matrix(s, df, ensure_full_rank=efr, output=output, **ckw)
     spec = mm.model_spec
     M = dense(mm).reshape(fr["n"], -1)
     ncols = M.shape[1]
@@ -78,10 +85,18 @@ def check_case(case) -> Outcome:
         out.fail("terms-vs-formula", f"{s!r}: spec terms {lib_terms} vs formula {exp_terms}", **feat)
         return out
     ti = spec.term_indices
-    if list(ti.keys()) != terms:
+    walk = list(zip(terms, lib_terms))
+    if ckw:
+        # with clustering the columns follow the clustered term order recorded in the structure
+        if sorted(map(str, ti.keys())) != sorted(map(str, terms)):
+            out.fail("term-indices-order", f"{s!r}: keys {list(ti.keys())} are not the terms {terms}", **feat)
+            return out
+        lt = dict(zip(terms, lib_terms))
+        walk = [(t, lt[t]) for t in ti.keys()]
+    elif list(ti.keys()) != terms:
         out.fail("term-indices-order", f"{s!r}: keys {list(ti.keys())} vs terms {terms}", **feat)
     pos = 0
-    for t, fset in zip(terms, lib_terms):
+    for t, fset in walk:
         idx = list(ti[t])
         if idx != list(range(pos, pos + len(idx))):
             out.fail("term-indices-contiguous", f"{s!r}: term {t} -> {idx}, expected to start at {pos}", **feat)
@@ -92,7 +107,7 @@ def check_case(case) -> Outcome:
         # independent: labels at those positions mention exactly this term's factors
         for j in idx:
             label = names[j]
-            if label == "Intercept":
+            if label == "Intercept" and not fset:
                 got = frozenset()
             else:
                 got = frozenset(base_factor(p) for p in E.split_label(label, odd))
@@ -159,6 +174,13 @@ def check_case(case) -> Outcome:
     for v in fr["cols"]:
         exp = sorted(used.get(v, set()))
         got = list(vi.get(v, []))
+        if v in used and v not in vi:
+            out.fail("variable-indices", f"{s!r}: variable {v!r} is used by the formula but has no entry in variable_indices (its terms emit {exp})", **feat)
+        if v in used:
+            try:
+                both_ = list(spec.get_variable_indices([v] + [w for w in used if w != v][:1]))
+            except KeyError as e:
+                out.fail("get-variable-indices", f"{s!r}: get_variable_indices with {v!r} raised KeyError({e})", **feat)
         if got != exp:
             out.fail("variable-indices", f"{s!r}: variable {v!r}: {got} vs {exp}", **feat)
         if exp and list(spec.get_variable_indices([v])) != exp:
@@ -212,14 +234,15 @@ def gen(max_rows=10):
         return fcase
 
     return st.builds(
-        lambda fr, f, flag, efr, o, subs, rn: {"frame": fr, "formula": swap(f, flag), "efr": efr, "output": o, "subsets": subs, "rename": rn},
+        lambda fr, f, flag, efr, o, subs, rn, cl: {"frame": fr, "formula": swap(f, flag), "efr": efr, "output": o, "subsets": subs, "rename": rn, "cluster": cl},
         F.frame(max_rows=max_rows, odd_names=False),
         fc,
         st.booleans(),
         st.sampled_from([True, True, False]),
         st.sampled_from(["pandas", "numpy", "sparse"]),
         st.lists(st.tuples(st.lists(st.integers(0, 6), min_size=1, max_size=4), st.sampled_from(["degree", "none"])), max_size=2),
-        st.sampled_from([None, None, None, "A", "B"]),
+        st.sampled_from([None, None, None, "A", "B", "x"]),
+        st.sampled_from([False, False, True]),
     )
 
 
